@@ -511,3 +511,753 @@ def slice_parts(node) -> Optional[Tuple[ast.AST, Optional[ast.AST], Optional[ast
     if isinstance(node, ast.Subscript) and isinstance(node.slice, ast.Slice) and node.slice.step is None:
         return node.value, node.slice.lower, node.slice.upper
     return None
+
+
+# =====================================================================================================================
+# MiniVM: a concrete interpreter for a small, explicit subset of Python, applied to the *source* of a repository class
+# (AST from sa.source.Module).  It exists to evaluate a method as a step function over a sequence of calls, threading
+# the object's attributes (whatever they are called) from one call to the next.  Nothing of the repository is imported
+# or executed by CPython: class bodies, methods and module-level functions are walked node by node; only whitelisted
+# pure stdlib objects (bytes/str/int/list/dict/tuple, re, struct, math, binascii, io.BytesIO) are operated natively.
+# Anything outside the subset raises VMError (the caller turns it into an AnalysisError - never a verdict).
+# =====================================================================================================================
+import binascii as _binascii
+import io as _io
+
+
+class VMError(Exception):
+    """construct outside the interpreter's subset / step budget exhausted"""
+
+
+class VMRaise(Exception):
+    """an exception raised by interpreted code: ``exc`` is a VMExc (class defined in the analysed module)"""
+
+    def __init__(self, exc):
+        Exception.__init__(self, repr(exc))
+        self.exc = exc
+
+
+class _Ret(Exception):
+    def __init__(self, v):
+        self.v = v
+
+
+class _Brk(Exception):
+    pass
+
+
+class _Cont(Exception):
+    pass
+
+
+class Opaque:
+    """stands for anything imported from outside the analysed module (twisted.*, zope.*): attribute access and calls yield
+    Opaque/None and have no effect"""
+
+    def __init__(self, name):
+        self._name = name
+
+    def __repr__(self):
+        return f"<opaque {self._name}>"
+
+
+class VMClass:
+    def __init__(self, vmmod, node: ast.ClassDef):
+        self.mod, self.node, self.name = vmmod, node, node.name
+        self._cache: Dict[str, object] = {}
+
+    def bases(self):
+        out = []
+        for b in self.node.bases:
+            v = None
+            if isinstance(b, ast.Name):
+                v = self.mod.globals_lookup(b.id, missing=None)
+            out.append(v if isinstance(v, VMClass) else None)
+        return [b for b in out if b is not None]
+
+    def mro(self):
+        seen, out = set(), []
+
+        def rec(c):
+            if c.name in seen:
+                return
+            seen.add(c.name)
+            out.append(c)
+            for b in c.bases():
+                rec(b)
+        rec(self)
+        return out
+
+    def own(self, name):
+        """('func', FunctionDef) / ('expr', ast.expr) / None for a name defined directly in this class body"""
+        found = None
+        stack = list(self.node.body)
+        while stack:
+            n = stack.pop(0)
+            if isinstance(n, (ast.FunctionDef, ast.AsyncFunctionDef)) and n.name == name:
+                found = ("func", n)
+            elif isinstance(n, ast.Assign):
+                for t in n.targets:
+                    if isinstance(t, ast.Name) and t.id == name:
+                        found = ("expr", n.value)
+                    elif isinstance(t, (ast.Tuple, ast.List)):
+                        for i, e in enumerate(t.elts):
+                            if isinstance(e, ast.Name) and e.id == name:
+                                found = ("item", (n.value, i))
+            elif isinstance(n, ast.AnnAssign) and isinstance(n.target, ast.Name) and n.target.id == name and n.value is not None:
+                found = ("expr", n.value)
+            elif isinstance(n, (ast.If, ast.Try)):
+                stack = list(n.body) + list(getattr(n, "orelse", [])) + stack
+        return found
+
+    def find(self, name):
+        for c in self.mro():
+            o = c.own(name)
+            if o is not None:
+                return c, o
+        return None
+
+    def __repr__(self):
+        return f"<class {self.name}>"
+
+
+class VMFunc:
+    def __init__(self, vmmod, node, owner: Optional[VMClass] = None):
+        self.mod, self.node, self.owner = vmmod, node, owner
+
+    def __repr__(self):
+        return f"<function {getattr(self.node, 'name', '<lambda>')}>"
+
+
+class VMBound:
+    def __init__(self, obj, func: VMFunc):
+        self.obj, self.func = obj, func
+
+
+class VMObj:
+    def __init__(self, cls: VMClass):
+        self.cls = cls
+        self.attrs: Dict[str, object] = {}
+
+    def __repr__(self):
+        return f"<{self.cls.name} instance>"
+
+
+class VMExc(VMObj):
+    def __init__(self, cls, args):
+        VMObj.__init__(self, cls)
+        self.args = tuple(args)
+
+    def names(self):
+        out = []
+        for c in self.cls.mro():
+            out.append(c.name)
+            for b in c.node.bases:
+                d = dotted(b)
+                if d:
+                    out.append(d.split(".")[-1])
+        return out
+
+
+_NATIVE_TYPES = (bytes, bytearray, str, int, float, bool, list, tuple, dict, set, frozenset, type(None), range,
+                 re.Pattern, re.Match, _io.BytesIO, memoryview)
+_BUILTINS = {
+    "len": len, "int": int, "str": str, "bytes": bytes, "bytearray": bytearray, "bool": bool, "list": list, "tuple": tuple,
+    "dict": dict, "set": set, "range": range, "min": min, "max": max, "abs": abs, "ord": ord, "chr": chr, "sum": sum,
+    "sorted": sorted, "reversed": reversed, "enumerate": enumerate, "zip": zip, "repr": repr, "divmod": divmod, "any": any,
+    "all": all, "memoryview": memoryview, "float": float, "iter": iter, "next": next,
+    "True": True, "False": False, "None": None,
+}
+_BUILTIN_EXC = {n: getattr(__import__("builtins"), n) for n in (
+    "BaseException", "Exception", "ValueError", "TypeError", "KeyError", "IndexError", "AttributeError", "NotImplementedError",
+    "AssertionError", "OverflowError", "ZeroDivisionError", "RuntimeError", "StopIteration", "ArithmeticError", "LookupError",
+    "UnicodeDecodeError", "UnicodeEncodeError", "UnicodeError", "OSError")}
+_STDLIB = {"math": math, "re": re, "struct": struct, "binascii": _binascii}
+_STDLIB_FROM = {("io", "BytesIO"): _io.BytesIO, ("struct", "calcsize"): struct.calcsize, ("struct", "pack"): struct.pack,
+                ("struct", "unpack"): struct.unpack, ("struct", "error"): struct.error, ("math", "ceil"): math.ceil,
+                ("math", "log10"): math.log10, ("re", "compile"): re.compile}
+
+
+class VMModule:
+    def __init__(self, module, vm):
+        self.module, self.vm = module, vm
+        self._g: Dict[str, object] = {}
+        self._lazy: Dict[str, ast.expr] = {}
+        stack = list(module.tree.body)
+        while stack:
+            n = stack.pop(0)
+            if isinstance(n, (ast.FunctionDef, ast.AsyncFunctionDef)):
+                self._g[n.name] = VMFunc(self, n)
+            elif isinstance(n, ast.ClassDef):
+                self._g[n.name] = VMClass(self, n)
+            elif isinstance(n, ast.Assign):
+                for t in n.targets:
+                    if isinstance(t, ast.Name):
+                        self._lazy[t.id] = n.value
+            elif isinstance(n, ast.AnnAssign) and isinstance(n.target, ast.Name) and n.value is not None:
+                self._lazy[n.target.id] = n.value
+            elif isinstance(n, ast.Import):
+                for a in n.names:
+                    top = a.name.split(".")[0]
+                    self._g[a.asname or top] = _STDLIB.get(a.name if a.asname else top, Opaque(a.name))
+            elif isinstance(n, ast.ImportFrom):
+                for a in n.names:
+                    self._g[a.asname or a.name] = _STDLIB_FROM.get((n.module or "", a.name), _STDLIB.get(a.name) if (n.module or "") == "" else Opaque(f"{n.module}.{a.name}"))
+            elif isinstance(n, (ast.If, ast.Try)):
+                stack = list(n.body) + list(getattr(n, "orelse", [])) + stack
+
+    def globals_lookup(self, name, missing=VMError):
+        if name in self._g:
+            return self._g[name]
+        if name in self._lazy:
+            expr = self._lazy.pop(name)
+            self._g[name] = self.vm.eval(expr, {}, self, None)
+            return self._g[name]
+        if name in _BUILTINS:
+            return _BUILTINS[name]
+        if name in _BUILTIN_EXC:
+            return _BUILTIN_EXC[name]
+        if missing is VMError:
+            raise VMError(f"unknown name {name}")
+        return missing
+
+
+class MiniVM:
+    def __init__(self, module, hooks=None, budget: int = 400000):
+        """``hooks``: {method name: callable(vm, obj, *args)} consulted before the class's own method."""
+        self.budget = budget
+        self.hooks = dict(hooks or {})
+        self.mod = VMModule(module, self)
+
+    # ---- objects -------------------------------------------------------------------------------------------
+    def cls(self, name) -> VMClass:
+        c = self.mod.globals_lookup(name)
+        if not isinstance(c, VMClass):
+            raise VMError(f"{name} is not a class of the module")
+        return c
+
+    def new(self, cls: VMClass, *args):
+        obj = VMExc(cls, args) if self._is_exc_class(cls) else VMObj(cls)
+        f = cls.find("__init__")
+        if f and f[1][0] == "func":
+            self.call(VMBound(obj, VMFunc(f[0].mod, f[1][1], f[0])), list(args), {})
+        return obj
+
+    def _is_exc_class(self, cls):
+        for c in cls.mro():
+            for b in c.node.bases:
+                d = (dotted(b) or "").split(".")[-1]
+                if d in _BUILTIN_EXC:
+                    return True
+        return False
+
+    def class_attr(self, cls: VMClass, name):
+        f = cls.find(name)
+        if f is None:
+            raise AttributeError(name)
+        owner, (kind, node) = f
+        if kind == "func":
+            return VMFunc(owner.mod, node, owner)
+        key = name
+        if key not in owner._cache:
+            scope = _ClassScope(self, owner)
+            if kind == "expr":
+                owner._cache[key] = self.eval(node, scope, owner.mod, None)
+            else:
+                owner._cache[key] = list(self.eval(node[0], scope, owner.mod, None))[node[1]]
+        return owner._cache[key]
+
+    def getattr(self, v, name):
+        if isinstance(v, VMObj):
+            if name == "__dict__":
+                return v.attrs
+            if name == "__class__":
+                return v.cls
+            if name in v.attrs:
+                return v.attrs[name]
+            if name in self.hooks:
+                h = self.hooks[name]
+                return lambda *a, _h=h, _o=v: _h(self, _o, *a)
+            if name == "args" and isinstance(v, VMExc):
+                return v.args
+            try:
+                a = self.class_attr(v.cls, name)
+            except AttributeError:
+                raise VMRaise_native(AttributeError(f"{v.cls.name} object has no attribute {name}"))
+            return VMBound(v, a) if isinstance(a, VMFunc) else a
+        if isinstance(v, VMClass):
+            if name == "__name__":
+                return v.name
+            try:
+                return self.class_attr(v, name)
+            except AttributeError:
+                raise VMRaise_native(AttributeError(name))
+        if isinstance(v, Opaque):
+            return Opaque(f"{v._name}.{name}")
+        if isinstance(v, _NATIVE_TYPES) or v in _STDLIB.values() or isinstance(v, VMStub):
+            if name.startswith("__") and name not in ("__class__", "__name__"):
+                raise VMError(f"dunder access .{name}")
+            return getattr(v, name)
+        raise VMError(f"attribute .{name} of {type(v).__name__}")
+
+    def setattr(self, v, name, val):
+        if isinstance(v, VMObj):
+            v.attrs[name] = val
+        elif isinstance(v, VMStub):
+            setattr(v, name, val)
+        elif isinstance(v, Opaque):
+            pass
+        else:
+            raise VMError(f"assignment to attribute of {type(v).__name__}")
+
+    # ---- calls ---------------------------------------------------------------------------------------------------
+    def call_method(self, obj, name, *args, skip_hook=False):
+        if not skip_hook and name in self.hooks:
+            return self.hooks[name](self, obj, *args)
+        a = self.class_attr(obj.cls, name)
+        return self.call(VMBound(obj, a), list(args), {})
+
+    def call(self, fn, args, kwargs):
+        if isinstance(fn, VMBound):
+            return self._run(fn.func, [fn.obj] + list(args), kwargs)
+        if isinstance(fn, VMFunc):
+            return self._run(fn, list(args), kwargs)
+        if isinstance(fn, VMClass):
+            return self.new(fn, *args)
+        if isinstance(fn, Opaque):
+            return None
+        if fn is isinstance:
+            return self._isinstance(*args)
+        if fn in _BUILTIN_EXC.values():
+            return fn(*args)
+        if callable(fn):
+            mod = getattr(fn, "__module__", None)
+            selfobj = getattr(fn, "__self__", None)
+            ok = fn in _BUILTINS.values() or fn in _STDLIB_FROM.values() or mod in ("math", "re", "_struct", "struct", "binascii", "_sre") \
+                or isinstance(selfobj, _NATIVE_TYPES) or isinstance(selfobj, VMStub) or selfobj in _STDLIB.values() \
+                or getattr(fn, "__name__", "") == "<lambda>"
+            if not ok:
+                raise VMError(f"call of non-whitelisted callable {fn!r}")
+            if any(isinstance(a, (VMObj, VMClass, Opaque)) for a in args) and not (isinstance(selfobj, (VMStub, list, dict)) or getattr(fn, "__name__", "") == "<lambda>"):
+                raise VMError(f"interpreted object passed to native callable {fn!r}")
+            return fn(*args, **kwargs)
+        raise VMError(f"call of {type(fn).__name__}")
+
+    def _isinstance(self, v, t):
+        ts = t if isinstance(t, tuple) else (t,)
+        for x in ts:
+            if isinstance(x, VMClass):
+                if isinstance(v, VMObj) and x.name in [c.name for c in v.cls.mro()]:
+                    return True
+            elif isinstance(x, type):
+                if isinstance(v, x) and not isinstance(v, (VMObj, Opaque)):
+                    return True
+            elif isinstance(x, Opaque):
+                continue
+            else:
+                raise VMError("isinstance with unsupported type")
+        return False
+
+    def _run(self, func: VMFunc, args, kwargs):
+        node = func.node
+        a = node.args
+        if a.vararg or a.kwarg or a.kwonlyargs or a.posonlyargs:
+            raise VMError(f"signature of {node.name} outside the subset")
+        names = [x.arg for x in a.args]
+        env: Dict[str, object] = {}
+        if len(args) > len(names):
+            raise VMRaise_native(TypeError(f"{node.name}() takes {len(names)} positional arguments"))
+        for n_, v in zip(names, args):
+            env[n_] = v
+        for k, v in kwargs.items():
+            if k not in names or k in env:
+                raise VMRaise_native(TypeError(f"{node.name}() unexpected argument {k}"))
+            env[k] = v
+        defaults = a.defaults
+        for n_, d in zip(names[len(names) - len(defaults):], defaults):
+            if n_ not in env:
+                env[n_] = self.eval(d, {}, func.mod, None)
+        missing = [n_ for n_ in names if n_ not in env]
+        if missing:
+            raise VMRaise_native(TypeError(f"{node.name}() missing {missing}"))
+        if isinstance(node, ast.Lambda):
+            return self.eval(node.body, env, func.mod, func.owner)
+        try:
+            self.block(node.body, env, func.mod, func.owner)
+        except _Ret as r:
+            return r.v
+        return None
+
+    # ---- statements ---------------------------------------------------------------------------------------------------
+    def block(self, stmts, env, mod, owner):
+        for st in stmts:
+            self.stmt(st, env, mod, owner)
+
+    def _tick(self):
+        self.budget -= 1
+        if self.budget < 0:
+            raise VMError("step budget exhausted (non-terminating loop?)")
+
+    def assign(self, tgt, val, env, mod, owner):
+        if isinstance(tgt, ast.Name):
+            env[tgt.id] = val
+        elif isinstance(tgt, ast.Attribute):
+            self.setattr(self.eval(tgt.value, env, mod, owner), tgt.attr, val)
+        elif isinstance(tgt, (ast.Tuple, ast.List)):
+            if any(isinstance(e, ast.Starred) for e in tgt.elts):
+                raise VMError("starred assignment")
+            try:
+                vals = list(val)
+            except TypeError as e:
+                raise VMRaise_native(e)
+            if len(vals) != len(tgt.elts):
+                raise VMRaise_native(ValueError(f"{'too many' if len(vals) > len(tgt.elts) else 'not enough'} values to unpack (expected {len(tgt.elts)})"))
+            for t, v in zip(tgt.elts, vals):
+                self.assign(t, v, env, mod, owner)
+        elif isinstance(tgt, ast.Subscript):
+            c = self.eval(tgt.value, env, mod, owner)
+            if not isinstance(c, (list, dict, bytearray)):
+                raise VMError("item assignment on unsupported container")
+            c[self._index(tgt.slice, env, mod, owner)] = val
+        else:
+            raise VMError(f"assignment target {type(tgt).__name__}")
+
+    def stmt(self, st, env, mod, owner):
+        self._tick()
+        if isinstance(st, ast.Expr):
+            self.eval(st.value, env, mod, owner)
+        elif isinstance(st, ast.Assign):
+            v = self.eval(st.value, env, mod, owner)
+            for t in st.targets:
+                self.assign(t, v, env, mod, owner)
+        elif isinstance(st, ast.AnnAssign):
+            if st.value is not None:
+                self.assign(st.target, self.eval(st.value, env, mod, owner), env, mod, owner)
+        elif isinstance(st, ast.AugAssign):
+            cur = self.eval(st.target, env, mod, owner)
+            v = self._binop(st.op, cur, self.eval(st.value, env, mod, owner))
+            self.assign(st.target, v, env, mod, owner)
+        elif isinstance(st, ast.If):
+            self.block(st.body if self.truth(self.eval(st.test, env, mod, owner)) else st.orelse, env, mod, owner)
+        elif isinstance(st, ast.While):
+            broke = False
+            while self.truth(self.eval(st.test, env, mod, owner)):
+                self._tick()
+                try:
+                    self.block(st.body, env, mod, owner)
+                except _Brk:
+                    broke = True
+                    break
+                except _Cont:
+                    continue
+            if not broke:
+                self.block(st.orelse, env, mod, owner)
+        elif isinstance(st, ast.For):
+            it = self.eval(st.iter, env, mod, owner)
+            if isinstance(it, (VMObj, Opaque)):
+                raise VMError("iteration over interpreted object")
+            broke = False
+            for v in list(it) if isinstance(it, (list, tuple, dict, set, bytes, range, str)) else it:
+                self._tick()
+                self.assign(st.target, v, env, mod, owner)
+                try:
+                    self.block(st.body, env, mod, owner)
+                except _Brk:
+                    broke = True
+                    break
+                except _Cont:
+                    continue
+            if not broke:
+                self.block(st.orelse, env, mod, owner)
+        elif isinstance(st, ast.Return):
+            raise _Ret(self.eval(st.value, env, mod, owner) if st.value is not None else None)
+        elif isinstance(st, ast.Break):
+            raise _Brk()
+        elif isinstance(st, ast.Continue):
+            raise _Cont()
+        elif isinstance(st, ast.Pass):
+            pass
+        elif isinstance(st, ast.Raise):
+            if st.exc is None:
+                raise VMError("bare raise")
+            e = self.eval(st.exc, env, mod, owner)
+            if isinstance(e, VMClass):
+                e = self.new(e)
+            if isinstance(e, type) and issubclass(e, BaseException):
+                e = e()
+            if isinstance(e, VMExc):
+                raise VMRaise(e)
+            if isinstance(e, BaseException):
+                raise VMRaise_native(e)
+            raise VMError("raise of a non-exception")
+        elif isinstance(st, ast.Try):
+            self._try(st, env, mod, owner)
+        elif isinstance(st, ast.Assert):
+            if not self.truth(self.eval(st.test, env, mod, owner)):
+                raise VMRaise_native(AssertionError())
+        elif isinstance(st, ast.Delete):
+            for t in st.targets:
+                if isinstance(t, ast.Attribute):
+                    o = self.eval(t.value, env, mod, owner)
+                    if isinstance(o, VMObj):
+                        o.attrs.pop(t.attr, None)
+                    else:
+                        raise VMError("del on native attribute")
+                elif isinstance(t, ast.Subscript):
+                    c = self.eval(t.value, env, mod, owner)
+                    if not isinstance(c, (list, dict, bytearray)):
+                        raise VMError("del item on unsupported container")
+                    del c[self._index(t.slice, env, mod, owner)]
+                elif isinstance(t, ast.Name):
+                    env.pop(t.id, None)
+                else:
+                    raise VMError("del target")
+        elif isinstance(st, (ast.Import, ast.ImportFrom, ast.Global, ast.Nonlocal)):
+            pass
+        elif isinstance(st, (ast.FunctionDef, ast.AsyncFunctionDef)):
+            env[st.name] = VMFunc(mod, st, owner)
+        else:
+            raise VMError(f"statement {type(st).__name__} outside the subset")
+
+    def _matches(self, exc, htype, env, mod, owner):
+        if htype is None:
+            return True
+        ts = htype.elts if isinstance(htype, ast.Tuple) else [htype]
+        for t in ts:
+            v = self.eval(t, env, mod, owner)
+            if isinstance(v, VMClass):
+                if isinstance(exc, VMRaise) and v.name in exc.exc.names():
+                    return True
+            elif isinstance(v, type) and issubclass(v, BaseException):
+                if isinstance(exc, VMRaise):
+                    if v.__name__ in exc.exc.names() or v in (Exception, BaseException):
+                        return True
+                elif isinstance(exc, _NativeRaise) and isinstance(exc.native, v):
+                    return True
+            elif isinstance(v, Opaque):
+                continue
+            else:
+                raise VMError("except clause type")
+        return False
+
+    def _try(self, st, env, mod, owner):
+        try:
+            try:
+                self.block(st.body, env, mod, owner)
+            except (VMRaise, _NativeRaise) as e:
+                for h in st.handlers:
+                    if self._matches(e, h.type, env, mod, owner):
+                        if h.name:
+                            env[h.name] = e.exc if isinstance(e, VMRaise) else e.native
+                        self.block(h.body, env, mod, owner)
+                        break
+                else:
+                    raise
+            else:
+                self.block(st.orelse, env, mod, owner)
+        finally:
+            if st.finalbody:
+                self.block(st.finalbody, env, mod, owner)
+
+    # ---- expressions --------------------------------------------------------------------------------------------------
+    @staticmethod
+    def truth(v):
+        if isinstance(v, (VMObj, VMClass, Opaque, VMFunc, VMBound)):
+            return True
+        return bool(v)
+
+    def _index(self, sl, env, mod, owner):
+        if isinstance(sl, ast.Slice):
+            return slice(self.eval(sl.lower, env, mod, owner) if sl.lower else None, self.eval(sl.upper, env, mod, owner) if sl.upper else None,
+                         self.eval(sl.step, env, mod, owner) if sl.step else None)
+        return self.eval(sl, env, mod, owner)
+
+    def _binop(self, op, a, b):
+        if isinstance(a, (VMObj, Opaque, VMClass)) or isinstance(b, (VMObj, Opaque, VMClass)):
+            raise VMError("arithmetic on interpreted object")
+        try:
+            t = type(op)
+            if t is ast.Add:
+                return a + b
+            if t is ast.Sub:
+                return a - b
+            if t is ast.Mult:
+                return a * b
+            if t is ast.Mod:
+                return a % b
+            if t is ast.FloorDiv:
+                return a // b
+            if t is ast.Div:
+                return a / b
+            if t is ast.Pow:
+                if isinstance(b, int) and abs(b) > 4096:
+                    raise VMError("pow too large")
+                return a ** b
+            if t is ast.LShift:
+                return a << b
+            if t is ast.RShift:
+                return a >> b
+            if t is ast.BitOr:
+                return a | b
+            if t is ast.BitAnd:
+                return a & b
+            if t is ast.BitXor:
+                return a ^ b
+        except VMError:
+            raise
+        except Exception as e:  # noqa: BLE001 - becomes an exception of the interpreted program
+            raise VMRaise_native(e)
+        raise VMError(f"operator {type(op).__name__}")
+
+    def eval(self, e, env, mod, owner):
+        self._tick()
+        try:
+            return self._eval(e, env, mod, owner)
+        except (VMError, VMRaise, _NativeRaise, _Ret, _Brk, _Cont):
+            raise
+        except RecursionError:
+            raise VMError("recursion limit")
+        except Exception as ex:  # noqa: BLE001 - native operation failed: an exception of the interpreted program
+            raise VMRaise_native(ex)
+
+    def _eval(self, e, env, mod, owner):
+        if isinstance(e, ast.Constant):
+            return e.value
+        if isinstance(e, ast.Name):
+            if isinstance(env, _ClassScope):
+                return env.lookup(e.id)
+            if e.id in env:
+                return env[e.id]
+            return mod.globals_lookup(e.id)
+        if isinstance(e, ast.Attribute):
+            return self.getattr(self.eval(e.value, env, mod, owner), e.attr)
+        if isinstance(e, ast.Call):
+            if isinstance(e.func, ast.Name) and e.func.id == "super":
+                raise VMError("super()")
+            fn = self.eval(e.func, env, mod, owner)
+            args = []
+            for a in e.args:
+                if isinstance(a, ast.Starred):
+                    args.extend(self.eval(a.value, env, mod, owner))
+                else:
+                    args.append(self.eval(a, env, mod, owner))
+            kwargs = {}
+            for k in e.keywords:
+                if k.arg is None:
+                    raise VMError("**kwargs call")
+                kwargs[k.arg] = self.eval(k.value, env, mod, owner)
+            return self.call(fn, args, kwargs)
+        if isinstance(e, ast.BinOp):
+            return self._binop(e.op, self.eval(e.left, env, mod, owner), self.eval(e.right, env, mod, owner))
+        if isinstance(e, ast.BoolOp):
+            v = None
+            for x in e.values:
+                v = self.eval(x, env, mod, owner)
+                if self.truth(v) != isinstance(e.op, ast.And):
+                    return v
+            return v
+        if isinstance(e, ast.UnaryOp):
+            v = self.eval(e.operand, env, mod, owner)
+            if isinstance(e.op, ast.Not):
+                return not self.truth(v)
+            if isinstance(e.op, ast.USub):
+                return -v
+            if isinstance(e.op, ast.UAdd):
+                return +v
+            return ~v
+        if isinstance(e, ast.Compare):
+            left = self.eval(e.left, env, mod, owner)
+            for op, rn in zip(e.ops, e.comparators):
+                right = self.eval(rn, env, mod, owner)
+                t = type(op)
+                if t is ast.Is:
+                    r = left is right
+                elif t is ast.IsNot:
+                    r = left is not right
+                elif t is ast.Eq:
+                    r = left == right
+                elif t is ast.NotEq:
+                    r = left != right
+                elif t is ast.In:
+                    r = left in right
+                elif t is ast.NotIn:
+                    r = left not in right
+                else:
+                    if isinstance(left, (VMObj, Opaque)) or isinstance(right, (VMObj, Opaque)):
+                        raise VMError("ordering of interpreted objects")
+                    r = {ast.Lt: lambda: left < right, ast.LtE: lambda: left <= right, ast.Gt: lambda: left > right, ast.GtE: lambda: left >= right}[t]()
+                if not r:
+                    return False
+                left = right
+            return True
+        if isinstance(e, ast.Subscript):
+            v = self.eval(e.value, env, mod, owner)
+            if isinstance(v, (VMObj, Opaque, VMClass)):
+                raise VMError("subscript of interpreted object")
+            return v[self._index(e.slice, env, mod, owner)]
+        if isinstance(e, ast.Tuple):
+            return tuple(self.eval(x, env, mod, owner) for x in e.elts)
+        if isinstance(e, ast.List):
+            return [self.eval(x, env, mod, owner) for x in e.elts]
+        if isinstance(e, ast.Set):
+            return {self.eval(x, env, mod, owner) for x in e.elts}
+        if isinstance(e, ast.Dict):
+            return {self.eval(k, env, mod, owner): self.eval(v, env, mod, owner) for k, v in zip(e.keys, e.values)}
+        if isinstance(e, ast.IfExp):
+            return self.eval(e.body if self.truth(self.eval(e.test, env, mod, owner)) else e.orelse, env, mod, owner)
+        if isinstance(e, ast.JoinedStr):
+            out = ""
+            for v in e.values:
+                if isinstance(v, ast.Constant):
+                    out += str(v.value)
+                else:
+                    x = self.eval(v.value, env, mod, owner)
+                    spec = self.eval(v.format_spec, env, mod, owner) if v.format_spec is not None else ""
+                    x = {114: repr, 115: str, 97: ascii}.get(v.conversion, lambda y: y)(x)
+                    out += format(x, spec)
+            return out
+        if isinstance(e, (ast.ListComp, ast.GeneratorExp, ast.SetComp)):
+            if len(e.generators) != 1 or e.generators[0].is_async:
+                raise VMError("comprehension outside the subset")
+            gen = e.generators[0]
+            out = []
+            local = dict(env) if not isinstance(env, _ClassScope) else {}
+            for v in self.eval(gen.iter, env, mod, owner):
+                self.assign(gen.target, v, local, mod, owner)
+                if all(self.truth(self.eval(c, local, mod, owner)) for c in gen.ifs):
+                    out.append(self.eval(e.elt, local, mod, owner))
+            return set(out) if isinstance(e, ast.SetComp) else out
+        if isinstance(e, ast.Lambda):
+            return VMFunc(mod, e, owner)
+        if isinstance(e, ast.Slice):
+            return self._index(e, env, mod, owner)
+        raise VMError(f"expression {type(e).__name__} outside the subset")
+
+
+class _NativeRaise(Exception):
+    def __init__(self, native):
+        Exception.__init__(self, repr(native))
+        self.native = native
+
+
+def VMRaise_native(e):
+    return _NativeRaise(e)
+
+
+class _ClassScope:
+    """name resolution inside a class body: earlier class-level names, then module globals"""
+
+    def __init__(self, vm, cls: VMClass):
+        self.vm, self.cls = vm, cls
+
+    def lookup(self, name):
+        if self.cls.own(name) is not None:
+            return self.vm.class_attr(self.cls, name)
+        return self.cls.mod.globals_lookup(name)
+
+    def __contains__(self, name):
+        return False
+
+
+class VMStub:
+    """base of the harness's stand-ins (transport): plain Python objects whose methods may be called from interpreted code"""
